@@ -229,3 +229,218 @@ let run_prefetchfan (parts : string list) : string =
   out ^ (if !worst <= 1 then " || spec=ok" else Printf.sprintf " || spec=FAIL:%d-refreshes-hold-one-key" !worst)
 
 let () = register "prefetchfan" run_prefetchfan
+
+(* ---------- kind prefetchgrp (e2e, client groups): the model's prediction for the scripted scenario of
+   harness/cmd/implrun/c19_grp.go, same canonical string.  Clients are mapped to groups by the extracted
+   load_marker / mark_of (C07's model of the ip marker) through pg_group; the script runs through pg_scenario
+   (Router/PrefetchGroups.v -> Router/Prefetch.v); the ECS prediction is pg_refresh_client (the address copied at
+   spawn time).  spec = single flight per key over every prefix of the run. ---------- *)
+
+let c19_trim (s : string) : string = String.trim s
+
+(* text of an address -> nl_addr (netip.ParseAddr on the subset the generator writes: dotted IPv4; IPv6 with at
+   most one "::" and an optional dotted IPv4 tail) *)
+let c19_n_of_groups (gs : int list) : n =
+  List.fold_left (fun acc g -> N.add (N.mul acc (n_of_int 65536)) (n_of_int g)) N0 gs
+
+let c19_v4 (s : string) : int option =
+  match String.split_on_char '.' s with
+  | [a; b; c; d] ->
+    (try
+       let l = List.map int_of_string [a; b; c; d] in
+       if List.for_all (fun x -> x >= 0 && x <= 255) l
+       then Some (List.fold_left (fun acc x -> acc * 256 + x) 0 l) else None
+     with _ -> None)
+  | _ -> None
+
+let c19_addr_of (s : string) : nl_addr option =
+  if s = "-" || s = "" then None
+  else if not (String.contains s ':') then
+    (match c19_v4 s with Some v -> Some (NlA4 (n_of_int v)) | None -> None)
+  else begin
+    let groups_of (t : string) : int list option =
+      if t = "" then Some [] else begin
+        let ps = String.split_on_char ':' t in
+        let n = List.length ps in
+        try
+          Some (List.concat (List.mapi (fun i p ->
+            if i = n - 1 && String.contains p '.' then
+              (match c19_v4 p with Some v -> [v lsr 16; v land 0xffff] | None -> failwith "v4")
+            else begin
+              if p = "" || String.length p > 4 then failwith "group";
+              [int_of_string ("0x" ^ p)]
+            end) ps))
+        with _ -> None
+      end in
+    (* split at the first "::" *)
+    let find_dc () =
+      let rec go i = if i + 1 >= String.length s then None else if s.[i] = ':' && s.[i + 1] = ':' then Some i else go (i + 1) in
+      go 0 in
+    match find_dc () with
+    | None ->
+      (match groups_of s with Some g when List.length g = 8 -> Some (NlA6 (c19_n_of_groups g)) | _ -> None)
+    | Some i ->
+      let hd = String.sub s 0 i and tl = String.sub s (i + 2) (String.length s - i - 2) in
+      (match groups_of hd, groups_of tl with
+       | Some a, Some b when List.length a + List.length b <= 7 ->
+         let z = List.init (8 - List.length a - List.length b) (fun _ -> 0) in
+         Some (NlA6 (c19_n_of_groups (a @ z @ b)))
+       | _ -> None)
+  end
+
+let c19_string_of_hex (h : string) : string =
+  String.concat "" (List.map (fun x -> String.make 1 (Char.chr (int_of_n x))) (bytes_of_hex h))
+
+(* loadIpMarkerFromReader, line by line: cut at '#', trim, skip empty, "start,end,label" *)
+let c19_marker_lines (text : string) : mline list =
+  List.map (fun line ->
+    let t = match String.index_opt line '#' with Some i -> String.sub line 0 i | None -> line in
+    let t = c19_trim t in
+    if t = "" then MBlank else
+    match String.index_opt t ',' with
+    | None -> MBad
+    | Some i ->
+      let a = String.sub t 0 i and rest = String.sub t (i + 1) (String.length t - i - 1) in
+      (match String.index_opt rest ',' with
+       | None -> MBad
+       | Some j ->
+         let b = String.sub rest 0 j and lb = String.sub rest (j + 1) (String.length rest - j - 1) in
+         (match c19_addr_of a, c19_addr_of b with
+          | Some a, Some b -> MRange (a, b, List.map (fun c -> n_of_int (Char.code c)) (List.of_seq (String.to_seq lb)))
+          | _ -> MBad))) (String.split_on_char '\n' text)
+
+(* "listener@address" -> the address the router sees *)
+let c19_client (s : string) : nl_addr option =
+  match String.index_opt s '@' with
+  | None -> failwith "bad client"
+  | Some i ->
+    let l = String.sub s 0 i and a = String.sub s (i + 1) (String.length s - i - 1) in
+    let is_http = (String.length l >= 4 && String.sub l 0 4 = "http") || (String.length l >= 8 && String.sub l 0 8 = "fasthttp") in
+    if not is_http then c19_addr_of "127.0.0.1" else c19_addr_of a
+
+let c19_clients (s : string) : nl_addr option list =
+  if s = "-" || s = "" then [] else List.map c19_client (String.split_on_char '+' s)
+
+let run_prefetchgrp (parts : string list) : string =
+  let f = fields parts in
+  let mode = fld f "mode" and ecs_on = fld f "ecs" = "1" in
+  let delay_ms = ifld f "delay" in
+  let sec = 1_000_000_000 and ms = 1_000_000 in
+  let life = 120 in
+  let zt = z_of_int in
+  let mk = match fld f "mk" with
+    | "-" | "" -> None
+    | h -> (match load_marker (c19_marker_lines (c19_string_of_hex h)) with
+        | Some es -> Some es
+        | None -> failwith "marker does not load") in
+  let hit = c19_clients (fld f "hit") and later = c19_clients (fld f "later") in
+  let others = match fld f "oth" with
+    | "-" | "" -> []
+    | s -> List.map (fun o -> match String.index_opt o ':' with
+        | Some i -> (String.sub o 0 i, c19_clients (String.sub o (i + 1) (String.length o - i - 1)))
+        | None -> failwith "bad oth") (String.split_on_char ',' s) in
+  let q = n_of_int 1 in
+  let evs = ref [] and nh = ref 0 and now = ref 0 and worst = ref 0 in
+  let add e = evs := !evs @ e in
+  let tick d = now := !now + d; add [PgTick (zt d)] in
+  let run () = let s = pg_scenario mk (zt 0) !evs in
+    (let m = int_of_nat s.pfs_max in if m > !worst then worst := m); s in
+  let len = List.length in
+  let answer (s : psummary) i = List.nth s.pfs_answers i in
+  let att (s : psummary) i = List.nth s.pfs_atts i in
+  let mark (o : pentry option) = match o with
+    | None -> "-"
+    | Some e -> (match int_of_n e.pe_val with
+        | v when v >= 7 && v <= 11 -> String.make 1 (Char.chr (Char.code 'A' + v - 7))
+        | v -> "?" ^ string_of_int v) in
+  let ttl_class (o : pentry option) t = match o with
+    | None -> "?"
+    | Some e ->
+      let lf = (int_of_z e.pe_expire - int_of_z e.pe_stored) / sec in
+      let ttl = lf - (t - int_of_z e.pe_stored) / sec in
+      if ttl >= 100 then "r" else if ttl <= 21 then "a" else "m" in
+  (* one query of client c, run to completion; returns its hit-thread index *)
+  let one c = add [PgHit (q, c)]; let i = !nh in incr nh; i in
+  let burst cs = add [PgBurst (q, cs)]; let a = !nh in nh := !nh + len cs; List.mapi (fun k _ -> a + k) cs in
+  let fmt_hit i = let s = run () in mark (answer s i) ^ ":" ^ ttl_class (answer s i) !now in
+
+  (* ---- setup: G's entry was stored 100 s before the burst; fresh groups ask 5 s before it *)
+  add [PgStore (q, List.hd hit, n_of_int 7, zt (life * sec), false)];
+  List.iter (fun (st, cs) ->
+    if st = "window" then add [PgStore (q, List.hd cs, n_of_int 9, zt (life * sec), false)]) others;
+  tick (95 * sec);
+  let n_fresh = ref 0 and setup_up = ref 0 in
+  List.iter (fun (st, cs) ->
+    if st = "fresh" then begin
+      incr n_fresh;
+      let c0 = List.hd cs in
+      let i = one c0 in
+      (match answer (run ()) i with
+       | None -> incr setup_up; add [PgStore (q, c0, n_of_int 9, zt (life * sec), false)]
+       | Some _ -> ())
+    end) others;
+  tick (5 * sec);
+  let out = Printf.sprintf "timing=ok setup=%d/%d setup_up=%d" !n_fresh !n_fresh !setup_up in
+
+  (* ---- the burst *)
+  let fresh_clients = List.concat (List.map (fun (st, cs) -> if st = "fresh" || st = "window" then cs else []) others) in
+  let idx = burst (hit @ fresh_clients) in
+  let rec take k l = if k <= 0 then [] else match l with [] -> [] | x :: t -> x :: take (k - 1) t in
+  let rec drop k l = if k <= 0 then l else match l with [] -> [] | _ :: t -> drop (k - 1) t in
+  let hit_idx = take (len hit) idx and fresh_idx = drop (len hit) idx in
+  let n_ref = len (List.filter (fun i -> att (run ()) i = Some true) idx) in
+  add (List.init n_ref (fun j -> PgSend (nat_of_int j)));
+  let s1 = run () in
+  let n_a = len (List.filter (fun i -> mark (answer s1 i) = "A" && ttl_class (answer s1 i) !now = "a") hit_idx) in
+  let n_c = len (List.filter (fun i -> mark (answer s1 i) = "C") fresh_idx) in
+  let out = out ^ Printf.sprintf " ans=%d/%d oth=%d/%d" n_a (len hit) n_c (len fresh_clients) in
+  let out = if mode = "slow"
+    then out ^ Printf.sprintf " up_mid=%d infl_mid=%d" (len s1.pfs_sent) (len s1.pfs_inflight) else out in
+  (* the client on whose behalf the refresh asks: the one whose reserve succeeded, copied at spawn time *)
+  let spawner = List.filter (fun (i, _) -> att s1 i = Some true) (List.combine idx (hit @ fresh_clients)) in
+  let ecs = match spawner with
+    | [] -> "noquery"
+    | l -> String.concat "+" (List.sort compare (List.map (fun (_, c) ->
+        match pg_refresh_client false c PgRcZeroed with
+        | Some _ when ecs_on -> "own"
+        | _ -> "none") l)) in
+  (match mode with
+   | "slow" | "fast" -> tick (delay_ms * ms);
+     add (List.init n_ref (fun j -> PgUp (nat_of_int j, RfOk (n_of_int 8, zt (life * sec), false))))
+   | "neg" -> tick (delay_ms * ms); add [PgUp (nat_of_int 0, RfOk (n_of_int 12, zt (30 * sec), true))]
+   | "fail" -> add [PgUp (nat_of_int 0, RfFail)]
+   | _ -> failwith "bad mode");
+  let s2 = run () in
+  let up_end = len s2.pfs_sent in
+  let out = out ^ Printf.sprintf " ecs=%s infl_end=%d up_end=%d" ecs (len s2.pfs_inflight) up_end in
+
+  (* ---- later hits of the same group *)
+  tick (100 * ms);
+  let out = match mode with
+    | "slow" | "fast" ->
+      let ls = List.map (fun c -> fmt_hit (one c)) later in
+      out ^ Printf.sprintf " later=%s up_after=%d" (String.concat "," ls) (len (run ()).pfs_sent)
+    | _ ->
+      let l0 = fmt_hit (one (List.hd later)) in
+      add [PgSend (nat_of_int 1); PgUp (nat_of_int 1, RfOk (n_of_int 8, zt (life * sec), false))];
+      tick (50 * ms);
+      let up2 = len (run ()).pfs_sent - up_end in
+      let ls = List.map (fun c -> fmt_hit (one c)) (List.tl later) in
+      out ^ Printf.sprintf " later=%s up2=%d" (String.concat "," (l0 :: ls)) up2 in
+
+  (* ---- the other groups: a group with an entry gets it, a group without one misses (the upstream says D) *)
+  tick (50 * ms);
+  let oth_up = ref 0 in
+  let oa = List.map (fun (_, cs) ->
+    String.concat "" (List.map (fun c ->
+      let i = one c in
+      match answer (run ()) i with
+      | None -> incr oth_up; add [PgStore (q, c, n_of_int 10, zt (life * sec), false)]; "D"
+      | o -> mark o) cs)) others in
+  let final = fmt_hit (one (List.hd later)) in
+  let sf = run () in
+  let out = out ^ Printf.sprintf " oth_after=%s oth_up=%d final=%s infl_final=%d churn_bad=0"
+      (if oa = [] then "-" else String.concat "," oa) !oth_up final (len sf.pfs_inflight) in
+  out ^ (if !worst <= 1 then " || spec=ok" else Printf.sprintf " || spec=FAIL:%d-refreshes-hold-one-key" !worst)
+
+let () = register "prefetchgrp" run_prefetchgrp
